@@ -24,6 +24,7 @@ def cart(s):
 
 
 _CENTRES = None
+_TURN = 0
 
 
 def centres():
@@ -67,6 +68,24 @@ def check_dir(acc, proj, v, stratum):
         if err > TOL:
             acc.violation(k + ':roundtrip', f'direction {v!r} on face {f} ({role}): project/unproject moves it by {err:.3g} rad (limit 1e-11)', case)
             continue
+        # the same point of the sphere with its azimuth written whole turns away (what from_lonlat yields for longitudes outside
+        # [-180, 180]): every third evaluation, -2, -1 and +1 turns in rotation
+        global _TURN
+        _TURN += 1
+        if _TURN % 3 == 0:
+            m = (-2, -1, 1)[(_TURN // 3) % 3]
+            s2 = (s[0] + 2 * math.pi * m, s[1])
+            try:
+                q2 = proj.forward(s2, f)
+                back2 = proj.inverse(q2, f)
+                err2 = sp.angle(v, cart(back2))
+            except Exception as e:
+                acc.violation(k + ':turns-raises', f'forward/inverse raised {type(e).__name__}: {e} for direction {v!r} written with azimuth {s2[0]!r} on face {f}', dict(case, turns=m))
+                continue
+            acc.n['azimuth_written_whole_turns_away'] += 1
+            if not err2 <= TOL:
+                acc.violation(k + ':turns', f'direction {v!r} on face {f} ({role}) written with its azimuth {m} turns away ({s2[0]!r}): project/unproject moves it by {err2:.3g} rad (limit 1e-11)', dict(case, turns=m))
+                continue
         key = (v, f)
         if key not in SEEN:
             SEEN.add(key)
@@ -306,7 +325,8 @@ def replay(case):
         acc = work_instances(case['n'])
         return [(k, w) for k, w, _ in acc.violations]
     if case['kind'] == 'dir':
-        check_dir(acc, Proj(), tuple(case['v']), 'replay')
+        for _ in range(19 if 'turns' in case else 1):      # the turn variants rotate with the evaluation counter: 19 calls present all of them on both faces
+            check_dir(acc, Proj(), tuple(case['v']), 'replay')
     else:
         check_plane(acc, Proj(), case['xy'][0], case['xy'][1], case['face'], 'replay', as_list=bool(case.get('as_list')))
     return [(k, w) for k, w, _ in acc.violations]
